@@ -74,7 +74,7 @@ REQUIRED["sort_multiple_point_pairs"] = 0.01
 REQUIRED.update({"elongated": 0.03, "poly-hanging": 0.05, "poly-collinear-vertex": 0.05, "poly-collinear-on-extreme-side": 0.03,
                  "poly-first-extreme-vertex-collinear": 0.01, "poly-starts-at-collinear-vertex": 0.01,
                  "poly-convex": 0.03, "poly-star": 0.05, "poly-hist": 0.03, "poly-cw": 0.05, "poly-ccw": 0.05,
-                 "pip-inside": 0.03, "pip-outside": 0.03, "pip-on-edge-line": 0.01, "pih-inside": 0.03,
+                 "pip-inside": 0.03, "pip-outside": 0.03, "pip-on-edge-line": 0.01, "pih-inside": 0.02,
                  "pih-outside": 0.03, "pih-on-face-plane": 0.005, "collinear-yes": 0.005, "collinear-no": 0.005, "planar-yes": 0.005,
                  "planar-no": 0.005, "chain-open": 0.005, "chain-circular": 0.005})
 
